@@ -31,6 +31,7 @@ type c08Spec struct {
 	taskEnv  map[string]string
 	taskVars map[string]string
 	taskDir  string
+	ctxEnv   map[string]string // env of the execution context the shared task runs in (nil: default context); below the task's env
 	stages   []stageOv
 	viaYAML  bool // build through internal/config (buildPipeline) instead of constructing Stage values
 	runs     int  // how many times the pipeline is run before the direct run
@@ -69,7 +70,19 @@ func (s c08Spec) line() string {
 	if td == "" {
 		td = "-"
 	}
-	return fmt.Sprintf("layers task=%s/%s/%s stages=%s", kvs(s.taskEnv), kvs(s.taskVars), filepath.Base(td), strings.Join(st, ";"))
+	return fmt.Sprintf("layers task=%s/%s/%s stages=%s", kvs(s.baseEnv()), kvs(s.taskVars), filepath.Base(td), strings.Join(st, ";"))
+}
+
+// what the task's commands see below any stage override: the context's env overlaid by the task's own env
+func (s c08Spec) baseEnv() map[string]string {
+	m := map[string]string{}
+	for k, v := range s.ctxEnv {
+		m[k] = v
+	}
+	for k, v := range s.taskEnv {
+		m[k] = v
+	}
+	return m
 }
 
 // the command prints what this execution sees; WHO identifies the stage (set by every stage) or "direct"
@@ -97,7 +110,7 @@ func expectedSeen(s c08Spec, i int, cwd string) string {
 	if dir == "" {
 		dir = cwd
 	}
-	return fmt.Sprintf("who=%s A=%s B=%s x=%s y=%s pwd=%s", who, get(s.taskEnv, env, "A"), get(s.taskEnv, env, "B"), get(s.taskVars, vars, "x"), get(s.taskVars, vars, "y"), dir)
+	return fmt.Sprintf("who=%s A=%s B=%s x=%s y=%s pwd=%s", who, get(s.baseEnv(), env, "A"), get(s.baseEnv(), env, "B"), get(s.taskVars, vars, "x"), get(s.taskVars, vars, "y"), dir)
 }
 
 func runC08Spec(s c08Spec) (lines []string, crashed string) {
@@ -147,6 +160,9 @@ func runC08Spec(s c08Spec) (lines []string, crashed string) {
 			td["dir"] = s.taskDir
 		}
 		raw := map[string]interface{}{"tasks": map[string]interface{}{"shared": td}, "pipelines": map[string]interface{}{"p": stages}}
+		if s.ctxEnv != nil {
+			td["context"] = "cx"
+		}
 		cl := verifhooks.NewConfigLoader(verifhooks.NewConfig())
 		cfg, err := cl.VerifBuildRaw(raw, "")
 		if err != nil {
@@ -161,6 +177,9 @@ func runC08Spec(s c08Spec) (lines []string, crashed string) {
 		shared.Env = variables.FromMap(s.taskEnv)
 		shared.Variables = variables.FromMap(s.taskVars)
 		shared.Dir = s.taskDir
+		if s.ctxEnv != nil {
+			shared.Context = "cx"
+		}
 		var stages []*scheduler.Stage
 		for i, o := range s.stages {
 			env := map[string]string{"WHO": fmt.Sprintf("s%d", i)}
@@ -182,7 +201,12 @@ func runC08Spec(s c08Spec) (lines []string, crashed string) {
 			return nil, "graph rejected: " + err.Error()
 		}
 	}
-	r, err := runner.NewTaskRunner()
+	var opts []runner.Opts
+	if s.ctxEnv != nil {
+		opts = append(opts, runner.WithContexts(map[string]*runner.ExecutionContext{
+			"cx": runner.NewExecutionContext(nil, "", variables.FromMap(s.ctxEnv), nil, nil, nil, nil)}))
+	}
+	r, err := runner.NewTaskRunner(opts...)
 	if err != nil {
 		return nil, err.Error()
 	}
@@ -295,6 +319,9 @@ func runC08(col *Collector, tier string, seed int64) {
 		for _, k := range keys {
 			if rng.Intn(2) == 0 {
 				m[k] = fmt.Sprintf("%s-%s%d", prefix, k, rng.Intn(100))
+				if rng.Intn(6) == 0 {
+					m[k] = "" // defined, with an empty value: still overrides the level below
+				}
 			}
 		}
 		return m
@@ -305,6 +332,10 @@ func runC08(col *Collector, tier string, seed int64) {
 		s := c08Spec{taskEnv: pick([]string{"A", "B"}, "task"), taskVars: pick([]string{"x", "y"}, "task"), viaYAML: yaml, runs: runs}
 		if rng.Intn(2) == 0 {
 			s.taskDir = dirs[0]
+		}
+		if rng.Intn(3) == 0 {
+			s.ctxEnv = pick([]string{"A", "B"}, "ctx")
+			s.ctxEnv["A"] = "ctx-A" // the context always defines A: a stage or task value for A must hide it
 		}
 		for i := 0; i < n; i++ {
 			o := stageOv{env: pick([]string{"A", "B"}, fmt.Sprintf("s%d", i)), vars: pick([]string{"x", "y"}, fmt.Sprintf("s%d", i)), deps: deps[i]}
